@@ -171,6 +171,7 @@ def rt_samples(values):
 def set_location(n):
     def ev(p):
         from sdc11073.location import SdcLocation
+        _need(p, LOC)
         loc = SdcLocation(fac='fac1', poc=f'poc{n}', bed=f'bed{n}')
         p.set_location(loc, [_pm().InstanceIdentifier('Validator', extension_string='System')])
     return ev
@@ -393,6 +394,44 @@ def delete_and_create_sibling(p):
         tr.add_descriptor(d, state_container=p.mdib.data_model.mk_state_container(d))
 
 
+def stash_entity(handle):
+    """Read an entity now, write it in a later event (stale entity copies are legal API usage)."""
+    def ev(p):
+        _need(p, handle)
+        if not hasattr(p, 'verif_stash'):
+            p.verif_stash = {}
+        p.verif_stash[handle] = p.mdib.entities.by_handle(handle)
+    return ev
+
+
+def write_stashed(handle, value='c'):
+    def ev(p):
+        ent = getattr(p, 'verif_stash', {}).get(handle)
+        if ent is None:
+            raise Disabled('nothing stashed')
+        _need(p, handle)
+        sc = {'a': _pm().SafetyClassification.MED_A, 'b': _pm().SafetyClassification.MED_B,
+              'c': _pm().SafetyClassification.MED_C}[value]
+        ent.descriptor.SafetyClassification = sc
+        with p.mdib.descriptor_transaction() as tr:
+            tr.write_entity(ent)
+    return ev
+
+
+def write_stashed_state(handle, value):
+    def ev(p):
+        ent = getattr(p, 'verif_stash', {}).get(handle)
+        if ent is None:
+            raise Disabled('nothing stashed')
+        _need(p, handle)
+        if ent.state.MetricValue is None:
+            ent.state.mk_metric_value()
+        ent.state.MetricValue.Value = Decimal(value)
+        with p.mdib.metric_state_transaction() as tr:
+            tr.write_entity(ent)
+    return ev
+
+
 EVENTS = [
     ('empty', empty_tx),
     ('metric(N1,1)', metric(NUM1, 1)),
@@ -442,8 +481,20 @@ EVENTS = [
     ('parent+child(parent-first)', parent_and_child('parent-first')),
     ('parent+child(child-first)', parent_and_child('child-first')),
     ('delete+create-sibling', delete_and_create_sibling),
+    ('delete(PAT)', delete(PAT)),
+    ('delete-subtree(SC)', delete('SC.mds0')),
+]
+STASH_EVENTS = [
+    ('stash(CH)', stash_entity(CH)),
+    ('stash(N1)', stash_entity(NUM1)),
+    ('stash(PAT)', stash_entity(PAT)),
+    ('write-stashed(CH)', write_stashed(CH)),
+    ('write-stashed(N1)', write_stashed(NUM1)),
+    ('write-stashed(PAT)', write_stashed(PAT)),
+    ('write-stashed-state(N1,8)', write_stashed_state(NUM1, 8)),
 ]
 EVENT_BY_NAME = dict(EVENTS)
+EVENT_BY_NAME.update(dict(STASH_EVENTS))
 
 # sub-alphabets
 DESCR_CTX = [n for n, _ in EVENTS if n.startswith(('create', 'update', 'delete', 'parent', 'patient', 'location'))]
@@ -460,3 +511,66 @@ def apply(provider, name):
     except Disabled:
         return 'disabled'
     return 'ok'
+
+
+# ---------------------------------------------------------------- two-MDS events (tests/mdib_two_mds.xml only)
+NUM_M1 = 'numeric_metric_0.channel_0.vmd_0.mds_1'
+AC_M1 = 'alert_condition_0.vmd_0.mds_1'
+CH_M1 = 'channel_0.vmd_0.mds_1'
+
+
+def metric_both_mds(v):
+    def ev(p):
+        _need(p, NUM1)
+        _need(p, NUM_M1)
+        with p.mdib.metric_state_transaction() as tr:
+            for h in (NUM_M1, NUM1, NUM2):
+                st = tr.get_state(h)
+                if st.MetricValue is None:
+                    st.mk_metric_value()
+                st.MetricValue.Value = Decimal(v)
+    return ev
+
+
+def alert_both_mds(p):
+    _need(p, AC)
+    _need(p, AC_M1)
+    with p.mdib.alert_state_transaction() as tr:
+        for h in (AC, AC_M1):
+            st = tr.get_state(h)
+            st.Presence = True
+
+
+def component_both_mds(p):
+    _need(p, CH)
+    _need(p, CH_M1)
+    with p.mdib.component_state_transaction() as tr:
+        for h in (CH_M1, CH):
+            st = tr.get_state(h)
+            st.OperatingHours = 11
+
+
+def create_metric_mds1(p):
+    _need(p, CH_M1)
+    _need(p, 'new.m1', present=False)
+    with p.mdib.descriptor_transaction() as tr:
+        d = _mk_metric_descriptor(p, 'new.m1', CH_M1)
+        tr.add_descriptor(d, state_container=p.mdib.data_model.mk_state_container(d))
+        d0 = tr.get_descriptor(NUM1)
+        d0.SafetyClassification = _pm().SafetyClassification.MED_A
+
+
+def delete_metric_mds1(p):
+    _need(p, NUM_M1)
+    with p.mdib.descriptor_transaction() as tr:
+        tr.remove_descriptor(NUM_M1)
+
+
+TWO_MDS_EVENTS = [
+    ('metric-both-mds(7)', metric_both_mds(7)),
+    ('alert-both-mds', alert_both_mds),
+    ('component-both-mds', component_both_mds),
+    ('create-metric-mds1+update-mds0', create_metric_mds1),
+    ('delete-metric-mds1', delete_metric_mds1),
+]
+EVENT_BY_NAME.update(dict(TWO_MDS_EVENTS))
